@@ -315,15 +315,29 @@ class Gen:
         loc_pool = list(self.data_planned) + [f for f in self.fin]
         if loc_pool and r.random() < 0.3:
             # location/scale families with a variable-dependent parameter (rewritten by DistTransformer)
-            lv = var(r.choice(loc_pool))
+            lname = r.choice(loc_pool)
+            lv = var(lname)
             fam = r.choice(["Normal", "Uniform", "Laplace"])
+            posfin = [f for f in self.fin if self.fin[f] and all(isinstance(x, F) and x >= 0 for x in self.fin[f])]
+            if posfin and r.random() < 0.15:
+                fam = "DistExp"
+            # composite location expressions (sums/differences of several terms, negated variable): the rewriting passes build
+            # the new right-hand side from the printed parameters, so every operand position must survive re-parsing
+            locs = [lv, lv, add(lv, num(1)), add(lv, num(-1)), add(mul(num(2), lv), num(-1)), add(num(1), mul(num(-1), lv)),
+                    add(lv, num(F(-1, 2)))]
             if fam == "Normal":
-                ps = [r.choice([lv, add(lv, num(1)), mul(num(2), lv)]), num(r.choice([1, 4, F(9, 4), F(1, 4)]))]
+                ps = [r.choice(locs + [mul(num(2), lv)]), num(r.choice([1, 4, F(9, 4), F(1, 4)]))]
             elif fam == "Uniform":
                 w = r.choice([1, 2, F(1, 2)])
-                ps = [lv, add(lv, num(w))]
+                lo = r.choice(locs)
+                ps = [lo, add(lo, num(w))]
+                if lo is not lv:
+                    self.feat("draw-Uniform-composite-lower-bound")
+            elif fam == "DistExp":
+                fv = var(r.choice(posfin))
+                ps = [("bin", "/", num(1), add(fv, num(r.choice([1, 2]))))]
             else:
-                ps = [r.choice([lv, add(lv, num(-1))]), num(r.choice([1, 2, F(1, 2)]))]
+                ps = [r.choice(locs), num(r.choice([1, 2, F(1, 2)]))]
             self.draws[name] = (fam, ps)
             self.linear_only.add(name)  # its parameters depend on program variables: only used linearly (keeps non-linear dependencies acyclic)
             self.feat("draw-location-scale-" + fam)
@@ -532,6 +546,18 @@ class Gen:
                 self.feat("init-by-draw")
             else:
                 self.init.append(("assign", name, ("poly", num(initv))))
+                if r.random() < 0.1 and self.fin.get(name):
+                    # the init block assigns the variable a second time (reading its first value): what holds at the loop head is
+                    # the LAST initial value
+                    v2 = r.choice([x for x in sorted(self.fin[name]) if x != initv] or [initv])
+                    if r.random() < 0.5:
+                        # a value the loop itself never assigns: only the last initial assignment puts it into the variable
+                        v2 = max(self.fin[name]) + r.choice([1, 2])
+                        self.fin[name] = set(self.fin[name]) | {v2}
+                        self.feat("init-assigned-twice-outside-loop-values")
+                    rhs2 = r.choice([add(var(name), num(v2 - initv)), num(v2), add(mul(num(-1), var(name)), num(v2 + initv))])
+                    self.init.append(("assign", name, ("poly", rhs2)))
+                    self.feat("init-assigned-twice")
         draw_stmts = []
         for _ in range(n_draw):
             name, rhs = self.new_draw()
@@ -654,6 +680,29 @@ class Gen:
             x = r.choice(self.data)
             body.append(("assign", x, ("poly", add(var(x), var(names[-1])))))
             self.feat(f"constant-chain-depth-{depth}")
+        if self.data and r.random() < 0.12:
+            # a loop constant with a RANDOM initial value (choice / draw in the init block, never assigned in the body): it is a
+            # random variable, not a number - E(kr**2) != E(kr)**2 and it is correlated with everything computed from it
+            kind = r.choice(["choice", "choice", "bernoulli", "duniform", "normal", "derived"])
+            if kind == "choice":
+                a_, b_ = r.choice([(1, 3), (0, 2), (-1, 1), (2, 5)])
+                rhs = ("choice", [(num(a_), num(r.choice([F(1, 4), F(1, 2), F(2, 3)]))), (num(b_), None)])
+                pr = rhs[1][0][1][1]
+                rhs = ("choice", [(num(a_), num(pr)), (num(b_), num(1 - pr))])
+                self.init.append(("assign", "kr", rhs))
+            elif kind == "bernoulli":
+                self.init.append(("assign", "kr", ("draw", "Bernoulli", [num(r.choice([F(1, 2), F(1, 3), F(3, 4)]))])))
+            elif kind == "duniform":
+                self.init.append(("assign", "kr", ("draw", "DiscreteUniform", [num(1), num(r.choice([2, 3]))])))
+            elif kind == "normal":
+                self.init.append(("assign", "kr", ("draw", "Normal", [num(r.choice([0, 1])), num(r.choice([1, 4]))])))
+            else:
+                self.init.append(("assign", "kq", ("choice", [(num(1), num(F(1, 2))), (num(2), num(F(1, 2)))])))
+                self.init.append(("assign", "kr", ("poly", r.choice([mul(num(2), var("kq")), add(var("kq"), num(1)), mul(var("kq"), var("kq"))]))))
+            x = r.choice(self.data)
+            body.append(("assign", x, ("poly", add(var(x), r.choice([var("kr"), var("kr"), mul(num(2), var("kr")), mul(var("kr"), var("kr"))])))))
+            self.data = self.data + ["kr"]
+            self.feat("random-loop-constant-" + kind)
         if self.large_discrete:
             # lagged copy placed BEFORE the draw: the copy reads the previous iteration's value of an untypable variable
             u = self.large_discrete[0]
